@@ -349,3 +349,30 @@ mod swar {
         assert!(chunk_to_u64(u64::from_le_bytes(b)) == v);
     }
 }
+
+#[cfg(all(kani, feature = "rkyv"))]
+mod rkyv_roundtrip {
+    use fpdec::{ArchivedDecimal, Decimal};
+    use rkyv::{Archive, Deserialize, Infallible, Serialize};
+
+    /// archiving (Serialize -> resolver, Archive::resolve into uninitialised memory) and deserialising is the identity,
+    /// and the archived accessors return the original coefficient / scale - for every coefficient and scale
+    #[kani::proof]
+    fn rkyv_resolve_deserialize_identity() {
+        let c: i128 = kani::any();
+        let p: u8 = kani::any();
+        kani::assume(p <= 18);
+        let d = Decimal::new_raw(c, p);
+        let resolver = Serialize::<Infallible>::serialize(&d, &mut Infallible).unwrap();
+        let mut out = core::mem::MaybeUninit::<ArchivedDecimal>::uninit();
+        unsafe {
+            d.resolve(0, resolver, out.as_mut_ptr());
+        }
+        let a: ArchivedDecimal = unsafe { out.assume_init() };
+        assert!(a.coefficient() == c);
+        assert!(a.n_frac_digits() == p);
+        let back: Decimal = Deserialize::<Decimal, Infallible>::deserialize(&a, &mut Infallible).unwrap();
+        assert!(back.coefficient() == c);
+        assert!(back.n_frac_digits() == p);
+    }
+}
